@@ -369,6 +369,16 @@ class Program(object):
         self.records = {}      # qname -> record
         self.enums = {}
         for u in self.units.values():
+            if u.name.startswith("tools/"):
+                # every tool is an executable of its own: functions (and classes) defined in the tool's source file
+                # with external linkage can share a USR with another tool's (parse_command_line, options::options)
+                own = {f.u for f in u.functions if f.u and f.q != "main" and f.relfile == u.name}
+                for d in u.decls:
+                    if d.get("u") in own:
+                        d["u"] = d["u"] + "#" + u.name
+                for f in u.functions:
+                    if f.u in own:
+                        f.u = f.u + "#" + u.name
             for f in u.functions:
                 if f.q == "main":
                     f.u = f.u + "#" + u.name          # one main per executable
